@@ -51,6 +51,7 @@ func runOnce(sc *Scenario) {
 	ctx, cancel := context.WithCancel(context.Background())
 	e.cancel = cancel
 	initSharedStyles(sc)
+	initShutBars(sc)
 	c := &sc.Cont
 	rec := &recorder{f: e.f, spec: c, w: c.TermW, h: c.TermH}
 	var opts []mpb.ContainerOption
@@ -360,6 +361,11 @@ func (e *env) do(client, idx int, op Op) {
 			rs = "nil,nil"
 		} else {
 			e.bars[op.Bar] = bar
+			if shutBars.on {
+				shutBars.mu.Lock()
+				shutBars.bars[op.Bar] = bar
+				shutBars.mu.Unlock()
+			}
 		}
 	case OpIncr:
 		b.IncrInt64(op.N)
